@@ -7,8 +7,10 @@
   Spec: Spec/CtxFlow.lean (docs/templates.rst).  Every theorem holds for all contexts, locals, globals, flags, value
   types; nothing is bounded.
 
-  F16: the statement for a default import (`ImportStatement`) is FALSE for the model as it is for the code
-  (Findings/F16.lean); it is proved here under the explicit hypothesis `NoShadow`.
+  F16 (fixed in /repo by 1454414): `_get_default_module` used to read the importer's extra global keys from
+  `ctx.parent`; the statement for a default import was false then (Findings/F16.lean keeps the witnesses against the
+  old read site).  With the values read from `ctx._globals` the full-strength `ImportStatement` is a theorem
+  (`import_ctx`); its only hypothesis says which template the importing context was created for.
 -/
 import JinjaV.Model.CtxFlow
 import JinjaV.Spec.CtxFlow
@@ -30,14 +32,11 @@ theorem get_all_is_resolve (c : Ctx α) (n : Name) : Env.get c.getAll n = c.reso
 
 example : Env.get ({ parent := [("a", 1), ("b", 2)], vars := [("a", 3)] } : Ctx Nat).getAll "a" = some 3 := by decide
 
-/-- `with context` (include and import alike): the statement never fails and the target sees the current local
-    variables over the current context — a local that is not `missing` wins, a `missing` one is skipped. -/
-theorem with_context_sees (s : Situation α) (h : s.withCtx = true) :
-    ∃ c, targetCtx s = some c ∧
-      ∀ n, sees c n = withContextSees (Locals.val s.locals) s.ctx.resolve n := by
-  refine ⟨newContext s.tgtGlobals (some s.ctx.getAll) true s.locals, by simp [targetCtx, h], ?_⟩
-  intro n
-  simp only [sees]
+/-- `with context` (include and import alike): the target sees the current local variables over the current
+    context — a local that is not `missing` wins, a `missing` one is skipped. -/
+theorem with_context_sees (s : Situation α) (h : s.withCtx = true) (n : Name) :
+    sees (targetCtx s) n = withContextSees (Locals.val s.locals) s.ctx.resolve n := by
+  simp only [sees, targetCtx, h, if_true]
   rw [newContext_resolve]
   simp only [if_true, Option.getD_some, getAll_get]
   unfold withContextSees orElse
@@ -57,17 +56,12 @@ example : Locals.val (dumpLocals [[("i", some 2), ("y", none)], [("x", some 1), 
   decide
 
 /-- include: with context as above, without context exactly the target template's own globals -/
-theorem include_ctx (s : Situation α) (hk : s.kind = .inc) :
-    ∃ c, targetCtx s = some c ∧
-      ∀ n, sees c n = includeSees s.withCtx (Locals.val s.locals) s.ctx.resolve s.tgtGlobals.get n := by
+theorem include_ctx (s : Situation α) (hk : s.kind = .inc) (n : Name) :
+    sees (targetCtx s) n = includeSees s.withCtx (Locals.val s.locals) s.ctx.resolve s.tgtGlobals.get n := by
   cases hw : s.withCtx with
-  | true =>
-    obtain ⟨c, hc, hs⟩ := with_context_sees s hw
-    exact ⟨c, hc, fun n => by rw [hs n]; simp [includeSees]⟩
+  | true => rw [with_context_sees s hw n]; simp [includeSees]
   | false =>
-    refine ⟨newContext s.tgtGlobals none false [], by simp [targetCtx, hw, hk], ?_⟩
-    intro n
-    simp only [sees]
+    simp only [sees, targetCtx, hw, hk, Bool.false_eq_true, if_false]
     rw [newContext_resolve]
     simp [includeSees, Locals.val, Env.get_nil]
 
@@ -80,12 +74,13 @@ def exInclude : Situation String :=
     kind := .inc
     withCtx := true }
 
-example : ∃ c, targetCtx exInclude = some c ∧
-    sees c "l" = some "L" ∧ sees c "r" = some "R" ∧ sees c "g" = some "G" ∧ sees c "t" = none ∧ sees c "m" = none :=
-  ⟨_, rfl, by decide, by decide, by decide, by decide, by decide⟩
+example : sees (targetCtx exInclude) "l" = some "L" ∧ sees (targetCtx exInclude) "r" = some "R" ∧
+    sees (targetCtx exInclude) "g" = some "G" ∧ sees (targetCtx exInclude) "t" = none ∧
+    sees (targetCtx exInclude) "m" = none :=
+  ⟨by decide, by decide, by decide, by decide, by decide⟩
 
 /-- `without context` cuts the target off completely: nothing of the including template (context, render variables,
-    locals, its globals, even the statement kind's caching) can influence what an included template sees. -/
+    locals, its globals) can influence what an included template sees. -/
 theorem include_without_independent (s s' : Situation α) (hk : s.kind = .inc) (hk' : s'.kind = .inc)
     (hw : s.withCtx = false) (hw' : s'.withCtx = false) (hg : s.tgtGlobals = s'.tgtGlobals) :
     targetCtx s = targetCtx s' := by
@@ -93,34 +88,32 @@ theorem include_without_independent (s s' : Situation α) (hk : s.kind = .inc) (
 
 /-! ### default import -/
 
-/-- the importing context belongs to the importing template: its `globals_keys` are the keys of that template's
-    globals (`new_context(…, globals=self.globals)`) -/
-def GlobalsKeysOf (s : Situation α) : Prop := ∀ k, k ∈ s.ctx.gkeys ↔ k ∈ s.srcGlobals.keys
-
-/-- THE HYPOTHESIS (F16): every importing-template global key that the imported template does not have itself is
-    present in the importing context's parent *with the global's value* — no render variable, inherited context value
-    or local of that name sits on top of it. -/
-def NoShadow (s : Situation α) : Prop :=
-  ∀ k, k ∈ s.ctx.gkeys → k ∉ s.tgtGlobals.keys → s.ctx.parent.get k = s.srcGlobals.get k
+/-- The importing context was created for the importing template: its `_globals` read like that template's globals
+    and every key of those is among its `globals_keys`.  This is what `new_context(…, globals=template.globals)`
+    establishes and `Context.derived` preserves (`created_for_new_context`, `created_for_derived`); it is the only
+    hypothesis of the import theorem — it says *which* template "the importing template" is. -/
+def CreatedFor (s : Situation α) : Prop :=
+  (∀ n, s.ctx.globals.get n = s.srcGlobals.get n) ∧ (∀ k, k ∈ s.srcGlobals.keys → k ∈ s.ctx.gkeys)
 
 /-- conclusion of the import property for one situation -/
 def ImportHolds (s : Situation α) : Prop :=
-  ∃ c, targetCtx s = some c ∧
-    ∀ n, sees c n = importSees s.withCtx (Locals.val s.locals) s.ctx.resolve s.tgtGlobals.get s.srcGlobals.get n
+  ∀ n, sees (targetCtx s) n =
+    importSees s.withCtx (Locals.val s.locals) s.ctx.resolve s.tgtGlobals.get s.srcGlobals.get n
 
-/-- The full-strength statement ("imports see only globals unless with context"): FALSE — see Findings/F16.lean. -/
+/-- The full-strength statement: "imports see only globals unless with context" — whatever the render variables,
+    context variables and locals are, whether the context is a root, shared or derived one. -/
 def ImportStatement : Prop :=
-  ∀ (α : Type) (s : Situation α), s.kind = .imp → GlobalsKeysOf s → ImportHolds s
+  ∀ (α : Type) (s : Situation α), s.kind = .imp → CreatedFor s → ImportHolds s
 
-private theorem default_import_lookup (s : Situation α) (wf : GlobalsKeysOf s) (ns : NoShadow s) {extra : Env α}
-    (he : defaultModuleVars s.ctx s.tgtGlobals = some extra) (n : Name) :
-    orElse (Env.get extra n) (Env.get s.tgtGlobals n) = orElse (Env.get s.tgtGlobals n) (Env.get s.srcGlobals n) := by
-  rw [lookupAll_get he n]
+private theorem default_import_lookup (s : Situation α) (cf : CreatedFor s) (n : Name) :
+    orElse (Env.get (defaultModuleVars s.ctx s.tgtGlobals) n) (Env.get s.tgtGlobals n) =
+      orElse (Env.get s.tgtGlobals n) (Env.get s.srcGlobals n) := by
+  rw [defaultModuleVars_get]
   by_cases hx : n ∈ extraKeys s.ctx s.tgtGlobals
-  · obtain ⟨hg, ht⟩ := (mem_extraKeys _ _ _).mp hx
+  · obtain ⟨_, ht⟩ := (mem_extraKeys _ _ _).mp hx
     have hnone : Env.get s.tgtGlobals n = none := (Env.get_eq_none_iff _ _).mpr ht
     simp only [hx, if_true, hnone, orElse_none]
-    rw [ns n hg ht]
+    rw [cf.1 n]
     cases Env.get s.srcGlobals n <;> rfl
   · simp only [hx, if_false, orElse_none]
     cases ht : Env.get s.tgtGlobals n with
@@ -128,144 +121,85 @@ private theorem default_import_lookup (s : Situation α) (wf : GlobalsKeysOf s) 
     | none =>
       have hnt : n ∉ s.tgtGlobals.keys := (Env.get_eq_none_iff _ _).mp ht
       have hng : n ∉ s.ctx.gkeys := fun hg => hx ((mem_extraKeys _ _ _).mpr ⟨hg, hnt⟩)
-      have : n ∉ s.srcGlobals.keys := fun h => hng ((wf n).mpr h)
+      have : n ∉ s.srcGlobals.keys := fun h => hng (cf.2 n h)
       simp [(Env.get_eq_none_iff _ _).mpr this]
 
 /-- import: with context like an include; by default exactly the imported template's globals, then the importing
-    template's globals — nothing else of the importing context — provided `NoShadow`. -/
-theorem import_ctx (s : Situation α) (hk : s.kind = .imp) (wf : GlobalsKeysOf s) (ns : NoShadow s) :
-    ImportHolds s := by
-  unfold ImportHolds
+    template's globals — nothing else of the importing context. -/
+theorem import_ctx : ImportStatement := by
+  intro α s hk cf n
   cases hw : s.withCtx with
-  | true =>
-    obtain ⟨c, hc, hs⟩ := with_context_sees s hw
-    exact ⟨c, hc, fun n => by rw [hs n]; simp [importSees]⟩
+  | true => rw [with_context_sees s hw n]; simp [importSees]
   | false =>
-    have hsome : (defaultModuleVars s.ctx s.tgtGlobals).isSome := by
-      unfold defaultModuleVars
-      rw [lookupAll_isSome_iff]
-      intro k hkx
-      obtain ⟨hg, ht⟩ := (mem_extraKeys _ _ _).mp hkx
-      rw [ns k hg ht, Env.get_isSome_iff]
-      exact (wf k).mp hg
-    obtain ⟨extra, he⟩ := Option.isSome_iff_exists.mp hsome
-    have key := default_import_lookup s wf ns he
-    have spec : ∀ n, importSees false (Locals.val s.locals) s.ctx.resolve s.tgtGlobals.get s.srcGlobals.get n
+    have key := default_import_lookup s cf n
+    have spec : importSees false (Locals.val s.locals) s.ctx.resolve s.tgtGlobals.get s.srcGlobals.get n
         = orElse (Env.get s.tgtGlobals n) (Env.get s.srcGlobals n) := by
-      intro n; simp only [importSees]; unfold orElse; rfl
-    by_cases hem : extra.isEmpty = true
-    · refine ⟨newContext s.tgtGlobals none false [], by simp [targetCtx, hw, hk, he, hem], ?_⟩
-      intro n
-      have hnil : extra = [] := by cases extra with
+      simp only [importSees]; unfold orElse; rfl
+    rw [spec, ← key]
+    by_cases hem : (extraKeys s.ctx s.tgtGlobals).isEmpty = true
+    · have hnil : extraKeys s.ctx s.tgtGlobals = [] := by
+        cases hx : extraKeys s.ctx s.tgtGlobals with
         | nil => rfl
-        | cons _ _ => simp at hem
-      have k := key n
-      rw [hnil] at k
-      simp only [Env.get_nil, orElse_none] at k
-      simp only [sees]
-      rw [newContext_resolve, spec n, ← k]
-      simp [Locals.val, Env.get_nil]
-    · refine ⟨newContext s.tgtGlobals (some extra) false [], by simp [targetCtx, hw, hk, he, hem], ?_⟩
-      intro n
-      simp only [sees]
-      rw [newContext_resolve, spec n, ← key n]
+        | cons _ _ => simp [hx] at hem
+      simp only [sees, targetCtx, hw, hk, hem, Bool.false_eq_true, if_false, if_true]
+      rw [newContext_resolve]
+      simp [Locals.val, Env.get_nil, defaultModuleVars, hnil]
+    · simp only [sees, targetCtx, hw, hk, hem, Bool.false_eq_true, if_false]
+      rw [newContext_resolve]
       simp [Locals.val]
 
-/-- The no-shadowing hypothesis in the words of the finding, for the context of a top-level render
-    `get_template(name, globals=G).render(**vars)`: no render variable is named like a key that the importing
-    template's globals have and the imported template's globals lack. -/
-theorem import_ctx_default_root (srcGlobals tgtGlobals renderVars : Env α) (locals : Locals α) (vars : Env α)
-    (exported : List Name)
-    (hno : ∀ k, k ∈ srcGlobals.keys → k ∉ tgtGlobals.keys → k ∉ renderVars.keys) :
-    ImportHolds { ctx := { rootContext srcGlobals renderVars with vars := vars, exported := exported }
-                  locals := locals
-                  srcGlobals := srcGlobals
-                  tgtGlobals := tgtGlobals
-                  kind := .imp
-                  withCtx := false } := by
-  apply import_ctx _ rfl
-  · intro k; simp [rootContext, newContext]
-  · intro k hg ht
-    simp only [rootContext, newContext, applyLocals, Option.getD_some, Bool.false_eq_true, if_false] at hg ⊢
-    rw [overlay_get]
-    have : Env.get renderVars k = none := (Env.get_eq_none_iff _ _).mpr (hno k (by simpa using hg) ht)
-    simp [this]
+/-- every context made by `new_context` for a template with globals `g` (root render, `make_module`, the context of
+    an included / imported template) is `CreatedFor` that template -/
+theorem created_for_new_context (g : Env α) (vars : Option (Env α)) (shared : Bool) (l : Locals α)
+    (cvars : Env α) (exported : List Name) (locals : Locals α) (tg : Env α) (k : Kind) (w : Bool) :
+    CreatedFor { ctx := { newContext g vars shared l with vars := cvars, exported := exported }
+                 locals := locals
+                 srcGlobals := g
+                 tgtGlobals := tg
+                 kind := k
+                 withCtx := w } :=
+  ⟨fun _ => rfl, fun _ h => h⟩
 
-example : ImportHolds ({ ctx := { rootContext [("g", "GLOBAL")] [("r", "R")] with vars := [], exported := [] }
-                         locals := [("l", some "L")]
-                         srcGlobals := [("g", "GLOBAL")]
-                         tgtGlobals := [("e", "E")]
-                         kind := .imp
-                         withCtx := false } : Situation String) :=
-  import_ctx_default_root [("g", "GLOBAL")] [("e", "E")] [("r", "R")] [("l", some "L")] [] [] (by decide)
+/-- … and `Context.derived` (scoped blocks) hands the property on -/
+theorem created_for_derived (s : Situation α) (cf : CreatedFor s) (l : Locals α) :
+    CreatedFor { s with ctx := s.ctx.derived l } :=
+  ⟨fun n => cf.1 n, fun k h => cf.2 k h⟩
 
-/-- exactly when the default import raises `KeyError`: some extra global key is absent from the context's parent
-    (possible only for a context created `shared`, i.e. of a template that was itself included / imported with
-    context; second face of F16) -/
-theorem import_default_keyerror_iff (s : Situation α) (hk : s.kind = .imp) (hw : s.withCtx = false) :
-    targetCtx s = none ↔ ∃ k, k ∈ s.ctx.gkeys ∧ k ∉ s.tgtGlobals.keys ∧ s.ctx.parent.get k = none := by
-  have hiff := lookupAll_isSome_iff s.ctx.parent (extraKeys s.ctx s.tgtGlobals)
-  constructor
-  · intro h
-    have hnone : defaultModuleVars s.ctx s.tgtGlobals = none := by
-      cases hd : defaultModuleVars s.ctx s.tgtGlobals with
-      | none => rfl
-      | some e => by_cases hem : e.isEmpty = true <;> simp [targetCtx, hw, hk, hd, hem] at h
-    have : ¬ ∀ k ∈ extraKeys s.ctx s.tgtGlobals, (Env.get s.ctx.parent k).isSome := by
-      intro hall
-      have := hiff.mpr hall
-      simp [defaultModuleVars] at hnone
-      simp [hnone] at this
-    have : ∃ k, k ∈ extraKeys s.ctx s.tgtGlobals ∧ ¬ (Env.get s.ctx.parent k).isSome := by
-      apply Classical.byContradiction
-      intro hne
-      apply this
-      intro k hkx
-      apply Classical.byContradiction
-      intro hns
-      exact hne ⟨k, hkx, hns⟩
-    obtain ⟨k, hkx, hnk⟩ := this
-    obtain ⟨hg, ht⟩ := (mem_extraKeys _ _ _).mp hkx
-    refine ⟨k, hg, ht, ?_⟩
-    cases hv : Env.get s.ctx.parent k with
-    | none => rfl
-    | some v => simp [hv] at hnk
-  · rintro ⟨k, hg, ht, hnone⟩
-    have hn : ¬ (lookupAll s.ctx.parent (extraKeys s.ctx s.tgtGlobals)).isSome := by
-      intro hs
-      have := hiff.mp hs k ((mem_extraKeys _ _ _).mpr ⟨hg, ht⟩)
-      simp [hnone] at this
-    cases hd : lookupAll s.ctx.parent (extraKeys s.ctx s.tgtGlobals) with
-    | none => simp [targetCtx, hw, hk, defaultModuleVars, hd]
-    | some e => simp [hd] at hn
-
-/-- a template with its own global `g`, included with context into a context that has no `g`, imports -/
-def exKeyError : Situation String :=
-  { ctx := { parent := [("x", "1")], gkeys := ["g"] }
-    locals := []
-    srcGlobals := [("g", "G")]
-    tgtGlobals := []
+/-- main loaded with globals {g: GLOBAL}, rendered with g=LOCAL, imports lib without context: lib sees GLOBAL (F16) -/
+def exImport : Situation String :=
+  { ctx := rootContext [("g", "GLOBAL")] [("g", "LOCAL")]
+    locals := [("g", some "LOOPVAR")]
+    srcGlobals := [("g", "GLOBAL")]
+    tgtGlobals := [("e", "E")]
     kind := .imp
     withCtx := false }
 
-example : (targetCtx exKeyError).isNone = true := by decide
+example : sees (targetCtx exImport) "g" = some "GLOBAL" ∧ sees (targetCtx exImport) "e" = some "E" :=
+  ⟨by decide, by decide⟩
+
+example : ImportHolds exImport := import_ctx String exImport rfl ⟨fun _ => rfl, fun _ h => h⟩
+
+/-- A default import is cut off from everything but globals: two importing contexts with the same `globals_keys` and
+    `_globals` give the imported module the same context, whatever their render variables, context variables, shared
+    parents and locals are (no hypothesis). -/
+theorem import_without_independent (s s' : Situation α) (hk : s.kind = .imp) (hk' : s'.kind = .imp)
+    (hw : s.withCtx = false) (hw' : s'.withCtx = false) (hg : s.tgtGlobals = s'.tgtGlobals)
+    (hkeys : s.ctx.gkeys = s'.ctx.gkeys) (hglob : s.ctx.globals = s'.ctx.globals) :
+    targetCtx s = targetCtx s' := by
+  simp [targetCtx, hk, hk', hw, hw', hg, extraKeys, defaultModuleVars, hkeys, hglob]
 
 /-- "imports are cached": whenever the statement is served from `Template._module`, the context it would have been
     rendered with is the context of `make_module()` with no arguments — the cached module is never one that saw
     anything of a particular importer (so reusing it for the next importer is sound). -/
 theorem cached_module_is_context_free (s : Situation α) (h : servedFromCache s = true) :
-    targetCtx s = some (newContext s.tgtGlobals none false []) := by
+    targetCtx s = newContext s.tgtGlobals none false [] := by
   simp only [servedFromCache, Bool.and_eq_true, Bool.not_eq_true'] at h
   obtain ⟨hw, hk⟩ := h
   cases hkind : s.kind with
   | inc => simp [targetCtx, hw, hkind]
   | imp =>
     simp only [hkind] at hk
-    have hnil : extraKeys s.ctx s.tgtGlobals = [] := by
-      cases hx : extraKeys s.ctx s.tgtGlobals with
-      | nil => rfl
-      | cons _ _ => simp [hx] at hk
-    simp [targetCtx, hw, hkind, defaultModuleVars, hnil, lookupAll]
+    simp [targetCtx, hw, hkind, hk]
 
 /-- … and a default import that is *not* served from the cache is rendered for this importer alone with at least one
     extra key -/
